@@ -297,6 +297,8 @@ type Scenario struct {
 	// a string describing everything that was observed (for determinism and
 	// distinct-outcome counting).
 	Run func(sc *Scenario, s *vsched.Sched) (*Mismatch, string)
+	// Heavy scenarios (four threads, long loops) are explored with one preemption less than the others.
+	Heavy bool
 	// post, if set by Run, is evaluated after the scheduler run has ended (it may start runs of its own, e.g. recoveries)
 	post func() (*Mismatch, string)
 }
@@ -401,7 +403,9 @@ func (sc *Scenario) ExploreSchedules(r *Report, job *Job, bound int, yieldOnRele
 			}
 		}
 		fps := o.res.Fingerprints()
-		pre := preBefore
+		// preemptions before point i are recounted over the whole execution (the prefix's own preemptions are in there)
+		_ = preBefore
+		pre := 0
 		for i := 0; i < len(o.res.Points); i++ {
 			p := o.res.Points[i]
 			if i >= len(prefix) {
